@@ -61,6 +61,17 @@ static void one_case(const TimeZone& tz, MGR& mgr, int mk, const ZI* const* full
   int utc = tz.getType() == TimeZone::kTypeManual ? tz.getUtcOffset(0).toMinutes() : 0;
   if (tz.getType() == TimeZone::kTypeManual) {
     if (tz.getUtcOffset(1234567).toMinutes() != utc || tz.getDeltaOffset(0).toMinutes() != tz.getDstOffset().toMinutes()) fail("manual zone offsets inconsistent");
+    // the offset is standard plus DST on every path, also when resolving a local date-time
+    long sum = (long) tz.getStdOffset().toMinutes() + tz.getDstOffset().toMinutes();
+    if (sum >= -960 && sum <= 960) {
+      LocalDateTime ldt = LocalDateTime::forComponents(2021, 6, 15, 12, 30, 0);
+      OffsetDateTime odt = tz.getOffsetDateTime(ldt);
+      ZonedDateTime z = ZonedDateTime::forComponents(2021, 6, 15, 12, 30, 0, tz);
+      ZonedDateTime r = ZonedDateTime::forEpochSeconds(z.toEpochSeconds(), tz);
+      if (odt.isError() || odt.timeOffset().toMinutes() != sum || z.timeOffset().toMinutes() != sum
+          || r.hour() != 12 || r.minute() != 30 || r.day() != 15 || (long) z.toEpochSeconds() != (long) ldt.toEpochSeconds() - sum * 60)
+        fail("manual zone: local date-time path does not use standard + DST");
+    }
   }
   char b[96];
   if (nsave) save_cases += ",";
